@@ -47,10 +47,10 @@ AppMsg(m) == CASE m = "ccr" -> [msg |-> [app |-> 4, code |-> 272, req |-> TRUE],
                \* a watchdog answer: an application message like any other unless the client runs the watchdog
                [] m = "dwa" -> [msg |-> [app |-> 0, code |-> 280, req |-> FALSE], short |-> "DW"]
 IsApp(m) == m \in {"ccr", "cca", "ulr", "rar", "ccr_e", "raa_e", "dwa"}
-CerKinds == {"cer_ok", "cer_bad", "cer_noid", "cer_sec", "cer_ok_wfail", "cer_sec_ccr"}
+CerKinds == {"cer_ok", "cer_bad", "cer_bad_nom", "cer_noid", "cer_sec", "cer_ok_wfail", "cer_sec_ccr"}
 \* cer_sec_ccr: a CER that is refused (in-band security) with an application request right behind it in the
 \* same fragment: the request is already buffered when the connection is closed and must not reach a handler
-FailCode(m) == CASE m = "cer_bad" -> 5010 [] m = "cer_noid" -> 5012 [] m \in {"cer_sec", "cer_sec_ccr"} -> 5017
+FailCode(m) == CASE m \in {"cer_bad", "cer_bad_nom"} -> 5010 [] m = "cer_noid" -> 5012 [] m \in {"cer_sec", "cer_sec_ccr"} -> 5017
 
 \* wbroken: reserved for a transport whose write side stays broken (never set since messages are
 \* handed to the transport directly: a failed write no longer poisons later writes)
@@ -81,7 +81,7 @@ Step1(side, cfg, s, m) ==
             ELSE Quiet(s)                                               \* no success CEA was written: the gate stays shut
        ELSE [s |-> [s EXCEPT !.closed = TRUE], fired |-> <<>>,
              wrote |-> IF CanAnswer(cfg, s) THEN <<[cmd |-> 257, rc |-> FailCode(m)]>> ELSE <<>>, anydwa |-> FALSE]
-  ELSE \* client: cea_ok / cea_fail (at most one per history)
+  ELSE \* client: cea_ok / cea_fail / cea_2002 (a success-class code other than 2001 is not DIAMETER_SUCCESS); at most one per history
        IF m = "cea_ok" THEN [s |-> [s EXCEPT !.hs = TRUE], fired |-> <<>>, wrote |-> <<>>, anydwa |-> FALSE]
        ELSE [s |-> [s EXCEPT !.closed = TRUE], fired |-> <<>>, wrote |-> <<>>, anydwa |-> FALSE]
 
